@@ -429,7 +429,12 @@ def run_check(prop, tier, seed):
         if d.get("modelled") == "1" and d.get("agree") == "0":
             stats["agree_break"] += 1
             kbreak.append((cid, "outcome of model (%s) and real macro (%s) differ" % (d.get("model"), d.get("real"))))
-        if prop in ("C17", "C20") and d.get("modelled") == "1" and d.get("tok") == "0" and d.get("struct") == "0" and d.get("agree") == "1":
+        if prop in ("C17", "C20") and d.get("modelled") == "1" and d.get("tok") == "0" and d.get("parsed") == "0" \
+                and d.get("rt") == "0" and d.get("agree") == "1" and d.get("real") == "ok":
+            # an input syn normalises (`fn f<>()`): the harness cannot locate the generated region in the real output, so
+            # only the raw token comparison exists for it - which a harmless respelling or reordering breaks too
+            stats["unobservable"] += 1
+        elif prop in ("C17", "C20") and d.get("modelled") == "1" and d.get("tok") == "0" and d.get("struct") == "0" and d.get("agree") == "1":
             # these properties are about the whole expansion: their projection is the token stream, up to the
             # Rust-equivalent respelling of bounds (`struct` compares the re-parsed items after Obs.canonItem)
             stats["k_break"] += 1
